@@ -13,6 +13,8 @@
 #define WF_MONBUF    16  /* report every change of the command / unsolicited working regions */
 #define WF_DUMPLF    32  /* dump all variables whenever an LF is consumed */
 #define WF_BRACKET   64  /* bracket every locking API call with snapshots (C16) */
+#define WF_C01MON    128 /* streaming C01 monitor: result codes vs terminated lines, no read-ahead (no events / HOLD in such runs) */
+#define WF_KEEP      256 /* w_run does not need the final variables again: nothing (reserved) */
 
 /* action kinds */
 #define WA_TRIG 1
@@ -30,6 +32,7 @@
 void w_set_output(FILE *f);
 long w_violations(void);
 long w_stat(int which);
+uint64_t w_hash(int which);   /* 0 output bytes, 1 callback sequence, 2 final variable bytes */
 const char *w_violation_text(void);
 void w_reset(void);
 void w_buf(int is_shared, size_t bsz, size_t usz);
